@@ -39,7 +39,15 @@ func Parse(patchFileName string, src []byte) (*File, error) {
 }
 
 // Apply takes the Go file name and its contents and returns a Go file with the patch applied.
-func (f *File) Apply(filename string, src []byte) ([]byte, error) {
+func (f *File) Apply(filename string, src []byte) (_ []byte, err error) {
+	// A panic while matching, rewriting or printing (for example from a
+	// patch that builds a malformed syntax tree) is reported as an error.
+	defer func() {
+		if rec := recover(); rec != nil {
+			err = fmt.Errorf("could not update %q: internal error: %v", filename, rec)
+		}
+	}()
+
 	base, err := parser.ParseFile(f.fset, filename, src, parser.AllErrors|parser.ParseComments)
 	if err != nil {
 		return nil, fmt.Errorf("could not parse %q: %w", filename, err)
